@@ -238,6 +238,18 @@ static inline long iora_recv(int fd, iora_wptr buf, size_t len, int flags)
   else G_rd_last = (G_errno == EAGAIN || G_errno == EWOULDBLOCK) ? IORA_RD_AGAIN : IORA_RD_ERROR;
   return r;
 }
+/* int SSL_pending(const SSL *ssl): plaintext bytes of the record OpenSSL has ALREADY decrypted. Any value >= 0: it says nothing about
+ * complete records that are still in the kernel socket buffer, so it cannot stand in for the would-block answer of SSL_read (clause R3).
+ * SEARCH build: 0 (the usual answer once a record has been consumed; what the replay executable answers too). */
+static inline int iora_SSL_pending(SSL *ssl)
+{
+  IORA_ASSERT(ssl != 0, "SSL_pending(): session has an SSL object");
+#ifdef IORA_SEARCH
+  return 0;
+#else
+  int r = nondet_int(); IORA_ASSUME(r >= 0); return r;
+#endif
+}
 /* int SSL_read(SSL *ssl, void *buf, int num): > 0 bytes, <= 0 ask SSL_get_error */
 static inline int iora_SSL_read(SSL *ssl, iora_wptr buf, int num)
 {
